@@ -36,6 +36,7 @@ RULE += (' Also: class-based managers whose exit answers a clean exit with a tru
 RULE += (" Also: bodies ending with a BaseException that is no Exception while the context's clean-up fails with its own exception; class managers whose exit is a staticmethod / classmethod.")
 RULE += (' Also: generator managers taking a single coroutine function (a hook) as their argument.')
 RULE += (' Also: the _recreate_cm hook as a classmethod or set on the instance.')
+RULE += (' Also: decorated methods called through an instance.')
 ASSUMPTIONS = ["class-based ContextDecorator instances are shared between calls (documented default of _recreate_cm)"]
 EXHAUSTIVE_SUBSPACES = 'every scenario counted in scenarios_explored_exhaustively had ALL its interleavings executed'
 EXHAUSTIVE = {"quick": False, "thorough": False}
@@ -59,7 +60,7 @@ def cases(tier, seed, shard, nshards):
             calls = [[rng.choice(["ret", "ret", "raise"]) for _ in range(rng.randint(1, 5 if nt == 1 else 3))] for _ in range(nt)]
             susp = {"enter": rng.choice([0, 1, 2]), "body": rng.choice([0, 1, 2]), "exit": rng.choice([0, 1, 2])}
         manager = rng.choice(["generator", "generator", "class", "lease"])
-        yield {"mode": mode, "manager": manager, "clean_exit_truthy": rng.random() < 0.4, "hook_arg": rng.random() < 0.25, "recreate_binding": rng.choice(["method", "method", "classmethod", "instance"]), "exit_binding": rng.choice(["method", "method", "static", "class"]), "suppress": rng.choice([False, False, False, True, True, "all"]), "body_kind": rng.choice(["async", "async", "eager"]),
+        yield {"mode": mode, "manager": manager, "clean_exit_truthy": rng.random() < 0.4, "hook_arg": rng.random() < 0.25, "as_method": rng.random() < 0.2, "recreate_binding": rng.choice(["method", "method", "classmethod", "instance"]), "exit_binding": rng.choice(["method", "method", "static", "class"]), "suppress": rng.choice([False, False, False, True, True, "all"]), "body_kind": rng.choice(["async", "async", "eager"]),
                "direct": rng.random() < 0.25 and manager != "lease",
                "calls": calls, "susp": susp, "cancel_task": rng.randrange(nt) if rng.random() < 0.45 else None,
                "runs": DFS_LIMIT[tier] if mode == "dfs" else RANDOM_RUNS[tier], "seed": rng.randrange(1 << 30),
@@ -295,7 +296,20 @@ def execute(case, choose, cancel_at=None):
             raise exc
         return ("result", call_id)
 
-    body = deco(body_eager if case.get("body_kind") == "eager" else body_async)
+    if case.get("as_method"):
+        # the decorated coroutine function is a METHOD: defined in a class body, called through an instance - which
+        # is bound as its first argument like for any other function
+        class Service:
+            async def run(this, call_id, how, func=None, self=None, args=None, kwds=None, cm=None):
+                if not isinstance(this, Service):
+                    raise AssertionError(f"the decorated method was called with {this!r} as its instance")
+                return await body_async(call_id, how, func=func, self=self, args=args, kwds=kwds, cm=cm)
+
+            run = deco(run)
+
+        body = Service().run
+    else:
+        body = deco(body_eager if case.get("body_kind") == "eager" else body_async)
     results = []
 
     async def caller(t, hows):
